@@ -56,6 +56,7 @@ long vrt_nevents(void);
 int  vrt_peek(int back, const char **name, long *lastarg);
 int  vrt_all_others_idle(void);
 void vrt_install_crash_handlers(void);
+void vrt_giveup(const char *what);
 /* verdict: 0 ok, 3 DEADLOCK, 4 CRASH, 5 HANG (process exits with this code after dumping) */
 
 #ifdef __cplusplus
